@@ -225,7 +225,8 @@ def main():
         corp = [p for p in progs if p["origin"] == "corpus"]
         gen = [p for p in progs if p["origin"] != "corpus"]
         rng.shuffle(corp)
-        progs = corp[:16] + gen
+        corp.sort(key=lambda p: 0 if p["name"].startswith("reg-") else 1)
+        progs = corp[:30] + gen
     wd = common.scratch_dir("c11")
     try:
         with mp.Pool(min(15, os.cpu_count() or 4)) as pool:
